@@ -117,7 +117,7 @@ func c11Body(double bool) func(rc *RunCtx) {
 	return func(rc *RunCtx) {
 		d := &c11Data{Double: double, cur: map[int]*qOp{}}
 		rc.Data = d
-		caps := []int{2, 1, 0, 5, 3}
+		caps := []int{2, 1, 0, 5, 3, -1} // 0 and negative: unbounded
 		d.Cap1 = caps[simrt.Choose(len(caps))]
 		d.Cap2 = caps[simrt.Choose(len(caps))]
 		var api queueAPI
@@ -184,7 +184,7 @@ func c11Body(double bool) func(rc *RunCtx) {
 					op := d.begin(rootID, "getnowait", 0, "prologue")
 					d.end(op, elem(api.getNoW()))
 				case 6, 7:
-					c := []int{2, 1, 3, 0, 5}[simrt.Choose(5)]
+					c := []int{2, 1, 3, 0, 5, -1}[simrt.Choose(6)]
 					op := d.begin(rootID, "setcap", c, "prologue")
 					setCap(c, c)
 					d.end(op, 0)
